@@ -2,7 +2,7 @@
 # tools/verify_seed.sh Cxx : confirm a sub-agent's seeded change in its scratch worktree, rebased onto /repo's HEAD:
 #   patch applies, workspace suite passes with it, demo fails with it and passes without it.
 # Writes /tmp/seed-out/Cxx/verify.log and prints a one-line summary.
-id=$1; wt=/tmp/seed-$id; out=/tmp/seed-out/$id; log=$out/verify.log
+id=$1; rnd=$2; wt=/tmp/seed$rnd-$id; out=/tmp/seed-out$rnd/$id; log=$out/verify.log
 exec > >(tee $log) 2>&1
 set -x
 cd $wt || exit 2
@@ -13,13 +13,13 @@ if ! git apply --check $out/patch.diff; then echo "SUMMARY $id patch does not ap
 git apply $out/patch.diff
 demo_kind=none
 if [ -f $out/seed_demo.rs ]; then cp $out/seed_demo.rs rsass/tests/seed_demo.rs; demo_kind=rs; elif [ -f $out/demo.sh ]; then demo_kind=sh; fi
-run_demo() { if [ $demo_kind = rs ]; then cargo test -p rsass --test seed_demo --offline >/tmp/seed-out/$id/demo.$1.log 2>&1; else bash $out/demo.sh $wt >/tmp/seed-out/$id/demo.$1.log 2>&1; fi; }
+run_demo() { if [ $demo_kind = rs ]; then cargo test -p rsass --test seed_demo --offline >$out/demo.$1.log 2>&1; else bash $out/demo.sh $wt >$out/demo.$1.log 2>&1; fi; }
 run_demo with; with=$?
 # suite without the demo file
-[ $demo_kind = rs ] && mv rsass/tests/seed_demo.rs /tmp/seed-out/$id/.seed_demo.rs.tmp
+[ $demo_kind = rs ] && mv rsass/tests/seed_demo.rs $out/.seed_demo.rs.tmp
 cargo test --workspace --no-fail-fast --offline >$out/suite.log 2>&1; suite=$?
 failed=$(grep -c "^test .* FAILED" $out/suite.log)
-[ $demo_kind = rs ] && mv /tmp/seed-out/$id/.seed_demo.rs.tmp rsass/tests/seed_demo.rs
+[ $demo_kind = rs ] && mv $out/.seed_demo.rs.tmp rsass/tests/seed_demo.rs
 git apply -R $out/patch.diff
 run_demo without; without=$?
 git apply $out/patch.diff
